@@ -3,6 +3,7 @@ import Rio.Model.Pack
 import Rio.Model.Warehouse
 import Rio.Model.Fetch
 import Rio.Model.Cache
+import Rio.Model.Kvfs
 namespace Rio.Driver
 open Rio
 
@@ -151,6 +152,28 @@ def cacheEngine : List String → String
       let tmps := (s.procs.filter (·.tmp.isSome)).length
       s!"outs={",".intercalate outs} shelves={",".intercalate shsSorted} tmps={tmps}"
     | _, _ => "bad-op"
+  | _ => "bad-op"
+
+/-- `kvfs <checkFlush 0|1> <chunks e.g. bbff|-> <faults e.g. ok,ok,fail,...|->` — one writer, stepped once per fault token -/
+def kvfsEngine : List String → String
+  | [cf, chunks, faults] =>
+    let cs : List Chunk := if chunks = "-" then [] else (chunks.toList.zipIdx.map (fun (c, i) => if c = 'f' then Chunk.flush i else Chunk.body i))
+    let fs : List Fault := if faults = "-" then [] else (faults.splitOn ",").map (fun t => if t = "fail" then Fault.fail else .ok)
+    let w := mkWriter [1] cs (cf = "1")
+    let s := wrun ⟨[], [([1], cs)], [w]⟩ (fs.map (fun f => (0, f)))
+    let res := match s.writers[0]? with
+      | some w => (match w.pc with
+        | .done none => "ok"
+        | .done (some c) => "err " ++ c.tok
+        | _ => "running")
+      | none => "?"
+    let fin := match s.finals.find? (·.1 = [1]) with
+      | none => "absent"
+      | some kv => if kv.2 = cs then "complete" else "partial"
+    let stg := match s.writers[0]? with
+      | some w => if w.staged.isSome then "1" else "0"
+      | none => "?"
+    s!"res={res} final={fin} staging={stg}"
   | _ => "bad-op"
 
 def schemeOfTok : String → Option Scheme
